@@ -655,6 +655,38 @@ def bounded_traces(ctx):
         seen.add(key)
         ctx.bounded_failure('C16.trace', f"{f['logic']} {f['argument']} {f['options']}: {f['kind']}", f, instance=f['kind'][:60])
 
+def trunk_obligations(ctx):
+    """the trunk: System.build_trunk of every logic (and Branch.__iadd__ under it) interpreted from source on premise lists of length
+    0..3, with a repeated premise and with the conclusion among the premises: exactly the premises in order, then the conclusion node"""
+    from checks import c01, rulesem as RS
+    funcs = {}
+    for lname in RS.registry():
+        r = c01.trunk_obligation(RS.registry()(lname), funcs)
+        r.name = r.name.replace('C01.trunk.', 'C16.trunk.')
+        ctx.add_result(r)
+    ctx.functions.update(funcs)
+    try:
+        from pyvc import source
+        ctx.under_contract(source.get('pytableaux/proof/common.py', 'Branch.__iadd__'))
+    except Exception: pass
+
+def replay_trunk(r):
+    "real tableaux of the logic for arguments with repeated premises: the trunk holds every premise, in order, then the conclusion"
+    from pytableaux.proof import Tableau
+    from pytableaux.lang import Argument
+    L = (r.meta or {}).get('logic') or r.name.split('.')[-1]
+    out = []
+    for a in ('b:a:a', 'b:a:b:a', 'a:a', 'b:a', 'b'):
+        arg = Argument(a)
+        try:
+            t = Tableau(L, arg)
+            trunk = list(t[0]); sents = [nd.get('sentence') for nd in trunk]
+            want_last = (~arg.conclusion) if trunk and trunk[-1].get('designated') is None else arg.conclusion
+            if len(trunk) != len(arg.premises) + 1 or sents[:-1] != list(arg.premises) or sents[-1] != want_last:
+                out.append(f'{L} {a}: trunk sentences {[str(x) for x in sents]}, expected {[str(x) for x in arg.premises]} + [{want_last}]')
+        except Exception as e: out.append(f'{L} {a}: {type(e).__name__}: {e}')
+    return dict(reproduced=bool(out), detail='; '.join(out[:3]) or 'trunks are the premises then the conclusion')
+
 def run(ctx):
     ctx.level = 'other'
     ctx.drop('type annotations', 'docstrings')
@@ -666,12 +698,14 @@ def run(ctx):
     build_branches(ctx)
     build_tree(ctx)
     stats_obligation(ctx)
+    trunk_obligations(ctx)
     listeners(ctx)
     branch_methods(ctx)
     structs.adz_apply_obligations(ctx, 'C16')
     bounded_traces(ctx)
     ctx.replayers['C16.Tree._build.'] = replay_build_tree
     ctx.replayers['C16.listeners'] = replay_listeners
+    ctx.replayers['C16.trunk.'] = replay_trunk
     ctx.replayers['C16.'] = lambda r: dict(reproduced=None, detail='see counterexample / meta')
 
 def replay(payload):
